@@ -115,6 +115,8 @@ def perform(scn: Dict[str, Any], kind: str, wrap: bool = True, falsy: Any = Fals
             if wrap and not isinstance(sch, CatchScheduler):
                 pass  # not asserted: what matters is what the handed scheduler does with a raise
             for cmd in script(ident, k):
+                if cmd["c"] == "ret":      # `return scheduler.schedule_xxx(...)`: hand the child's handle back
+                    return disp[cmd["a"]]
                 do(cmd, sch, ident, k)
             return None
         return action
